@@ -231,6 +231,237 @@ theorem lazy_eager_agree (cells : List (Nat × Nat × α)) (hs : RowSorted cells
 
 end lazy
 
+/-! ## stronger forms: cells in any order, emptiness as an "exactly when", agreement of the bounds
+    (added after an independent audit of the statements: `eager_after_last` alone proves "empty when n > r.er" for
+    an ARBITRARY rectangle `r`, which is the property's "otherwise it is empty" only for a range that is tight at
+    the bottom — the counter-instance is kept as an `example` below) -/
+section strong
+variable [DecidableEq α]
+
+/-- **lazy readers, explicit header row, cells in ANY order** (no hypothesis on the order in which the part lists
+    its cells): if some non-empty cell lies in a row ≥ n, the range starts exactly at row `n`, ends at the largest
+    row holding a non-empty cell, and every position with row ≥ n shows the last non-empty cell stored there —
+    nothing from a row < n -/
+theorem lazy_window_any_order (cells : List (Nat × Nat × α)) (n : Nat)
+    (hex : Kn cells n ≠ []) (r' : Rng α) (h : windowLazy cells (.row n) = .ok r') :
+    r'.inner.length ≠ 0 ∧ r'.sr = n ∧ (∀ c ∈ Kn cells n, c.1 ≤ r'.er) ∧ (∃ c ∈ Kn cells n, c.1 = r'.er) ∧
+    ∀ p q, r'.valAt p q = if n ≤ p then (lastAt (K0 cells) p q).getD default else default := by
+  obtain ⟨hLne, hLge, ⟨xn, hxn, hxn1⟩, hsub, hsup, hlast⟩ := keepLazy_row_facts cells n hex
+  have hge : ∀ c ∈ Kn cells n, n ≤ c.1 := by
+    intro c hc; have := (List.mem_filter.mp hc).2; simp only [decide_eq_true_eq] at this; exact this.2
+  unfold windowLazy at h
+  obtain ⟨hpos, hmem, ⟨c1, hc1, e1⟩, ⟨c2, hc2, e2⟩, _, _, hv⟩ := fromSparse_spec_any _ hLne r' h
+  have hsr : r'.sr = n := by
+    have a := (hmem xn hxn).1
+    have b := hLge c1 hc1
+    omega
+  refine ⟨hpos, hsr, fun c hc => (hmem c (hsub c hc)).2.1, ?_, ?_⟩
+  · -- the largest row is attained by a kept cell: by c2 itself, or — if c2 is the anchor — by any kept cell
+    rcases hsup c2 hc2 with hk | ⟨hrow, _⟩
+    · exact ⟨c2, hk, e2⟩
+    · obtain ⟨c, rest, hk⟩ := List.exists_cons_of_ne_nil hex
+      have hcm : c ∈ Kn cells n := by rw [hk]; exact List.mem_cons_self ..
+      have a := (hmem c (hsub c hcm)).2.1
+      have b := hge c hcm
+      exact ⟨c, hcm, by omega⟩
+  · intro p q
+    rw [hv p q, hlast p q]
+    by_cases hp : n ≤ p
+    · rw [if_pos hp, Kn_eq]
+      congr 1
+      apply lastAt_filter
+      intro c _ h1 _; simp only [decide_eq_true_eq]; omega
+    · rw [if_neg hp, lastAt_none_of (Kn cells n) p q]; · rfl
+      intro c hc; have := hge c hc; omega
+
+/-- **lazy readers: empty exactly when no non-empty cell lies in a row ≥ n** -/
+theorem lazy_empty_iff (cells : List (Nat × Nat × α)) (n : Nat) (r' : Rng α)
+    (h : windowLazy cells (.row n) = .ok r') :
+    r'.inner.length = 0 ↔ ∀ c ∈ cells, c.2.2 ≠ default → c.1 < n := by
+  constructor
+  · intro hemp c hc hnd
+    by_cases hex : Kn cells n = []
+    · have := List.filter_eq_nil_iff.mp hex c hc
+      simp only [decide_eq_true_eq] at this
+      by_cases hlt : c.1 < n
+      · exact hlt
+      · exact absurd ⟨hnd, by omega⟩ this
+    · exact absurd hemp (lazy_window_any_order cells n hex r' h).1
+  · intro hall
+    rw [lazy_empty cells n hall] at h; injection h with h; subst h; rfl
+
+/-- **default option, lazy readers, any order**: the range starts at the FIRST ROW THAT CONTAINS A NON-EMPTY CELL
+    (the smallest such row), ends at the largest, and shows at every position the last non-empty cell stored there -/
+theorem lazy_default_any_order (cells : List (Nat × Nat × α)) (hne : K0 cells ≠ []) (r0 : Rng α)
+    (h : windowLazy cells .firstNonEmpty = .ok r0) :
+    r0.inner.length ≠ 0 ∧ (∀ c ∈ K0 cells, r0.sr ≤ c.1 ∧ c.1 ≤ r0.er) ∧
+    (∃ c ∈ K0 cells, c.1 = r0.sr) ∧ (∃ c ∈ K0 cells, c.1 = r0.er) ∧
+    ∀ p q, r0.valAt p q = (lastAt (K0 cells) p q).getD default := by
+  unfold windowLazy keepLazy at h
+  obtain ⟨hpos, hmem, t1, t2, _, _, hv⟩ := fromSparse_spec_any (K0 cells) hne r0 h
+  exact ⟨hpos, fun c hc => ⟨(hmem c hc).1, (hmem c hc).2.1⟩, t1, t2, hv⟩
+
+/-- values under `Row(n)` vs the default option, cells in any order -/
+theorem lazy_agrees_with_default_any_order (cells : List (Nat × Nat × α)) (n : Nat)
+    (r0 r' : Rng α) (h0 : windowLazy cells .firstNonEmpty = .ok r0) (h : windowLazy cells (.row n) = .ok r')
+    (p q : Nat) : r'.valAt p q = if n ≤ p then r0.valAt p q else default := by
+  have hv0 : r0.valAt p q = (lastAt (K0 cells) p q).getD default := by
+    by_cases hne : K0 cells = []
+    · have e : K0 cells = [] := hne
+      unfold windowLazy keepLazy at h0
+      simp only [K0] at hne
+      rw [hne] at h0; simp only [fromSparse] at h0; injection h0 with h0; subst h0
+      rw [e]; simp [Rng.valAt, empty, lastAt]
+    · exact (lazy_default_any_order cells hne r0 h0).2.2.2.2 p q
+  rw [hv0]
+  by_cases hex : Kn cells n = []
+  · have hall : ∀ c ∈ cells, c.2.2 ≠ default → c.1 < n := by
+      intro c hc hnd
+      have := List.filter_eq_nil_iff.mp hex c hc
+      simp only [decide_eq_true_eq] at this
+      by_cases hlt : c.1 < n
+      · exact hlt
+      · exact absurd ⟨hnd, by omega⟩ this
+    rw [lazy_empty cells n hall] at h; injection h with h; subst h
+    have : (empty : Rng α).valAt p q = default := by simp [Rng.valAt, empty]
+    rw [this]
+    split
+    · rename_i hp
+      rw [lastAt_none_of (K0 cells) p q]; · rfl
+      intro c hc
+      have hm := List.mem_filter.mp hc
+      have := hall c hm.1 (by simpa using hm.2)
+      omega
+    · rfl
+  · exact (lazy_window_any_order cells n hex r' h).2.2.2.2 p q
+
+end strong
+
+/-- the sheet's range is tight at the bottom: its last row holds a non-default cell — what the readers build
+    (the bounding box of the non-empty cells: C02 `biff_sheet_roundtrip`, C04 `ods_range_spec`) -/
+def TightBottom (r : Rng α) : Prop := ∃ q, r.valAt r.er q ≠ default
+
+/-- **eager readers: empty exactly when no non-empty cell lies in a row ≥ n** (for a sheet range that is
+    tight at the bottom; for an arbitrary rectangle only `→` would hold) -/
+theorem eager_empty_iff (r : Rng α) (hi : Inv r) (hne : r.inner.length ≠ 0) (ht : TightBottom r) (n : Nat)
+    (r' : Rng α) (h : windowEager r (.row n) = .ok r') :
+    r'.inner.length = 0 ↔ ∀ p q, n ≤ p → r.valAt p q = default := by
+  simp only [windowEager, hne, if_false] at h
+  by_cases hgt : n > r.er
+  · rw [if_pos hgt] at h; injection h with h; subst h
+    refine ⟨fun _ p q hp => valAt_of_out r p q (by omega), fun _ => rfl⟩
+  · rw [if_neg hgt] at h
+    obtain ⟨_, hpos, _, _⟩ := inv_range r hi n r.sc r.er r.ec r' h
+    obtain ⟨q, hq⟩ := ht
+    constructor
+    · intro h0; exact absurd h0 hpos
+    · intro hall; exact absurd (hall r.er q (by omega)) hq
+
+/-- when it is not empty the eager window starts exactly at row `n` and ends at the sheet's last row -/
+theorem eager_bounds (r : Rng α) (hi : Inv r) (hne : r.inner.length ≠ 0) (n : Nat) (hn : n ≤ r.er)
+    (r' : Rng α) (h : windowEager r (.row n) = .ok r') :
+    r'.inner.length ≠ 0 ∧ r'.start = some (n, r.sc) ∧ r'.end_ = some (r.er, r.ec) := by
+  simp only [windowEager, hne, if_false, Nat.not_lt.mpr hn] at h
+  obtain ⟨_, hpos, hs, he⟩ := inv_range r hi n r.sc r.er r.ec r' h
+  exact ⟨hpos, hs, he⟩
+
+section strong2
+variable [DecidableEq α]
+
+/-- the range the lazy readers build under the default option is tight at the bottom -/
+theorem lazy_default_tight (cells : List (Nat × Nat × α)) (hne : K0 cells ≠ []) (r0 : Rng α)
+    (h : windowLazy cells .firstNonEmpty = .ok r0) : TightBottom r0 := by
+  obtain ⟨_, _, _, ⟨c, hc, hce⟩, hv⟩ := lazy_default_any_order cells hne r0 h
+  refine ⟨c.2.1, ?_⟩
+  rw [hv, ← hce]
+  -- some cell of K0 sits at (c.1, c.2.1): the last one there carries a non-default value
+  unfold lastAt
+  have hex : ∃ x ∈ (K0 cells).reverse, decide (x.1 = c.1 ∧ x.2.1 = c.2.1) = true :=
+    ⟨c, List.mem_reverse.mpr hc, by simp⟩
+  obtain ⟨x, hx⟩ := Option.isSome_iff_exists.mp (List.find?_isSome.mpr hex)
+  rw [hx]
+  have hxm : x ∈ K0 cells := List.mem_reverse.mp (List.mem_of_find?_eq_some hx)
+  have := (List.mem_filter.mp hxm).2
+  simpa using this
+
+/-- **hr_lazy_eager_agree, bounds and emptiness**: on the same sheet (cells in any order) the lazy window and the
+    eager window of the default range are empty together, and otherwise have the same first row `n` and the same
+    last row (their column extents may differ: the lazy one is tight on the kept cells) -/
+theorem lazy_eager_bounds_agree (cells : List (Nat × Nat × α)) (n : Nat) (r0 rl re : Rng α)
+    (h0 : windowLazy cells .firstNonEmpty = .ok r0) (hl : windowLazy cells (.row n) = .ok rl)
+    (he : windowEager r0 (.row n) = .ok re) :
+    (rl.inner.length = 0 ↔ re.inner.length = 0) ∧
+    (rl.inner.length ≠ 0 → rl.sr = n ∧ re.sr = n ∧ rl.er = re.er) := by
+  have hi : Inv r0 := (inv_fromSparse _ r0 h0).1
+  by_cases hk0 : K0 cells = []
+  · -- no non-empty cell at all: everything is empty
+    have hall : ∀ c ∈ cells, c.2.2 ≠ default → c.1 < n := by
+      intro c hc hnd
+      have := List.filter_eq_nil_iff.mp hk0 c hc
+      simp at this; exact absurd this hnd
+    have e0 : r0.inner.length = 0 := by
+      unfold windowLazy keepLazy at h0
+      have e : cells.filter (fun c => decide (c.2.2 ≠ default)) = [] := hk0
+      rw [e] at h0; simp only [fromSparse] at h0; injection h0 with h0; subst h0; rfl
+    rw [eager_empty_sheet r0 e0] at he; injection he with he; subst he
+    rw [lazy_empty cells n hall] at hl; injection hl with hl; subst hl
+    exact ⟨⟨fun _ => e0, fun _ => rfl⟩, fun h => absurd rfl h⟩
+  · obtain ⟨hpos0, hmem0, _, ⟨cmax, hcmax, hcm⟩, _⟩ := lazy_default_any_order cells hk0 r0 h0
+    have ht := lazy_default_tight cells hk0 r0 h0
+    by_cases hex : Kn cells n = []
+    · -- every non-empty cell is above row n
+      have hall : ∀ c ∈ cells, c.2.2 ≠ default → c.1 < n := by
+        intro c hc hnd
+        have := List.filter_eq_nil_iff.mp hex c hc
+        simp only [decide_eq_true_eq] at this
+        by_cases hlt : c.1 < n
+        · exact hlt
+        · exact absurd ⟨hnd, by omega⟩ this
+      have hlt : r0.er < n := by
+        have hm := List.mem_filter.mp hcmax
+        have := hall cmax hm.1 (by simpa using hm.2)
+        omega
+      rw [lazy_empty cells n hall] at hl; injection hl with hl; subst hl
+      rw [eager_after_last r0 n hpos0 hlt] at he; injection he with he; subst he
+      exact ⟨⟨fun _ => rfl, fun _ => rfl⟩, fun h => absurd rfl h⟩
+    · obtain ⟨hposl, hsrl, hlel, ⟨cl, hcl, hcle⟩, _⟩ := lazy_window_any_order cells n hex rl hl
+      have hge : ∀ c ∈ Kn cells n, n ≤ c.1 := by
+        intro c hc; have := (List.mem_filter.mp hc).2; simp only [decide_eq_true_eq] at this; exact this.2
+      have hKsub : ∀ c ∈ Kn cells n, c ∈ K0 cells := by
+        intro c hc; rw [Kn_eq] at hc; exact (List.mem_filter.mp hc).1
+      -- the largest non-empty row is ≥ n, so it is the largest kept row too
+      have hn : n ≤ r0.er := by
+        have a := hge cl hcl
+        have b := (hmem0 cl (hKsub cl hcl)).2
+        omega
+      have hcmaxK : cmax ∈ Kn cells n := by
+        rw [Kn_eq]; exact List.mem_filter.mpr ⟨hcmax, by simp only [decide_eq_true_eq]; omega⟩
+      have her : rl.er = r0.er := by
+        have a := hlel cmax hcmaxK
+        have b := (hmem0 cl (hKsub cl hcl)).2
+        omega
+      obtain ⟨hpose, hse, hee⟩ := eager_bounds r0 hi hpos0 n hn re he
+      have hsre : re.sr = n := by
+        simp only [Rng.start, hpose, if_false] at hse; injection hse with hse; exact (Prod.mk.inj hse).1
+      have here : re.er = r0.er := by
+        simp only [Rng.end_, hpose, if_false] at hee; injection hee with hee; exact (Prod.mk.inj hee).1
+      exact ⟨⟨fun h => absurd h hposl, fun h => absurd h hpose⟩, fun _ => ⟨hsrl, hsre, by rw [her, here]⟩⟩
+
+end strong2
+
+/-- the counter-instance of the audit: on a rectangle that is NOT tight at the bottom the eager window under
+    `Row(1)` is a non-empty all-default range, although no non-empty cell lies in a row ≥ 1 -/
+example : windowEager (⟨0, 0, 2, 0, [5, 0, 0]⟩ : Rng Nat) (.row 1) = .ok ⟨1, 0, 2, 0, [0, 0]⟩ := by rfl
+example : ¬ TightBottom (⟨0, 0, 2, 0, [5, 0, 0]⟩ : Rng Nat) := by
+  intro ⟨q, hq⟩
+  simp only [Rng.valAt] at hq
+  split at hq
+  · rename_i h
+    have : q = 0 := by omega
+    subst this
+    exact hq (by decide)
+  · exact hq rfl
+
 /-! ## non-vacuity -/
 
 example : windowEager (⟨1, 0, 2, 1, [5, 0, 0, 7]⟩ : Rng Nat) (.row 2) = .ok ⟨2, 0, 2, 1, [0, 7]⟩ := by rfl
